@@ -1206,7 +1206,8 @@ private:
          , m_col(lp.colVector(_j))
       {
          assert(m_row[m_j] != 0.0);
-         simplifier.addObjoffset(m_obj * m_const / m_row[m_j]);
+         // the offset is accumulated in the sense of the original objective (m_obj is in minimization form)
+         simplifier.addObjoffset(lp.obj(_j) * m_const / m_row[m_j]);
       }
       /// copy constructor
       MultiAggregationPS(const MultiAggregationPS& old)
